@@ -103,7 +103,7 @@ def variants(rel, sub, v, short_file, n):
 
 def enum_cases(tier):
     def g():
-        V = 3 if tier == 'quick' else 9
+        V = 3 if tier == 'quick' else 6
         for rel in GL.shipped():
             m = meta(rel)
             names = m['tables']
@@ -149,7 +149,7 @@ def random_case(draw):
 def searches(tier):
     q = tier == 'quick'
     return [Search('ordered_table_subsets', 'enum', enum_cases(tier), shards=16),
-            Search('random_selections', 'hyp', random_case, n=640 if q else 160000, shards=16, max_shrink_s=20)]
+            Search('random_selections', 'hyp', random_case, n=640 if q else 120000, shards=16, max_shrink_s=20)]
 
 
 # ------------------------------------------------------------------------------------------------
@@ -222,6 +222,9 @@ def short_expectation(rel, ref, info):
     for (tn, r, c, rev) in info:
         key = ref['rows'][tn][r]
         colname = ref['cols'][tn][c]
+        if ref['rows'][tn].count(key) > 1:
+            # two rows of the full table carry this name: which of them a short-table line belongs to is undecidable
+            out.append(None); continue
         vals, present = [], []
         ok = True
         for b, fi in per_block:
